@@ -311,6 +311,7 @@ func (d *zzC13ChanDB) configure(inc *zzIncarnation, cfg *ChannelArbitratorConfig
 		cfg.IsPendingClose = true
 		cfg.ClosingHeight = v.pending.CloseHeight
 		cfg.CloseType = v.pending.CloseType
+		d.realLoader(v.pending)
 		cfg.MarkCommitmentBroadcasted = nil
 		cfg.MarkChannelClosed = nil
 		return
@@ -340,6 +341,38 @@ func (d *zzC13ChanDB) configure(inc *zzIncarnation, cfg *ChannelArbitratorConfig
 		}
 		inc.effect(zzEffect{kind: "closed", what: fmt.Sprintf("type=%d height=%d", s.CloseType, s.CloseHeight)})
 		return nil
+	}
+}
+
+// realLoader runs lnd's own ChainArbitrator.loadPendingCloseChannels on the
+// database the node restarts from (it only reads). ORACLE ("after restart it
+// resumes from the recorded stage"): whatever kind of close it was, a channel
+// that is pending close must get an arbitrator again - pending close, with the
+// stored close type and height - or nothing ever drives it to "fully closed".
+// The arbitrator that runs is the simulator's (it needs the simulator's seams);
+// this one is only looked at.
+func (d *zzC13ChanDB) realLoader(pending *channeldb.ChannelCloseSummary) {
+	w, r := d.w, d.w.r
+	ca := &ChainArbitrator{
+		activeChannels: make(map[wire.OutPoint]*ChannelArbitrator),
+		activeWatchers: make(map[wire.OutPoint]*chainWatcher),
+		chanSource:     d.db,
+	}
+	if err := ca.loadPendingCloseChannels(); err != nil {
+		r.Fail("restart-start-error", "%s: ChainArbitrator.loadPendingCloseChannels fails on the restarted database: %v", d.ex.where(), err)
+	}
+	r.Count("probe_real_pending_close_loader_ran")
+	a := ca.activeChannels[w.chanPoint]
+	switch {
+	case a == nil:
+		r.Fail("restart-no-arbitrator", "%s: the channel is pending close in the channel database (close type %d, height %d) but ChainArbitrator.loadPendingCloseChannels "+
+			"creates no arbitrator for it: nothing will ever mark it fully closed", d.ex.where(), pending.CloseType, pending.CloseHeight)
+	case !a.cfg.IsPendingClose || a.cfg.CloseType != pending.CloseType || a.cfg.ClosingHeight != pending.CloseHeight:
+		r.Fail("restart-arbitrator-config", "%s: loadPendingCloseChannels builds the arbitrator with pendingClose=%v closeType=%d closingHeight=%d, the close record says type %d height %d",
+			d.ex.where(), a.cfg.IsPendingClose, a.cfg.CloseType, a.cfg.ClosingHeight, pending.CloseType, pending.CloseHeight)
+	}
+	if pending.CloseType == channeldb.CooperativeClose {
+		r.Count("probe_restart_of_pending_coop_close")
 	}
 }
 
